@@ -12,1086 +12,1140 @@ Definition show_fres (r : fres) : string :=
   end.
 Definition check (rs : list rune) : string := digest (show_fres (format_res rs)).
 Definition full (rs : list rune) : string := show_fres (format_res rs).
-Eval vm_compute in ("<<<M88>>>" ++ check (runes_of_ascii "  packet falsey {
-    @leftPad	( )  int8 uint8x
-, zchar[ 10 ] matchKey
-,
-    // c
-    repeat matchKey{ repeat
-i8
-matchKey
-,
-a1 @calculatedFrom( //
-""\n"" ) `two words` ,  } ,a1 { char[]a1, char x_y_z
-    // @lengthOf(
-    ,	zchar[
-65535
-] // a // b
-len`u8 x,`
-,},repeat	MetaDataX
-{	repeat
-leftPad pack,	string i8i8 `say ""hi""` , }// 50% %s
-,
-// " ++ [27880; 37322]%N ++ runes_of_ascii "
-// @lengthOf(
-@leftPad //x
-( '0' ) @lengthOf( BodyLength ) @rightPad
-    ( ' ' // 50% %s
-)
-    char[] // " ++ [128512]%N ++ runes_of_ascii " emoji
-charz , @lengthOf( i8i8
-    ) @calculatedFrom( ""CRC32"" )
-    @lengthOf(	T )metadata ,// 50% %s
-} packet x	{
-@tag( 0123456789	) match tag
-    as Pad { [//x
-""\" ++ [233]%N ++ runes_of_ascii """ , ""a	b""
-    , // " ++ [27880; 37322]%N ++ runes_of_ascii "
-""a\\"", ""{,}"" , 007,  007 ,  0123456789
-    ] // c
-:
-    options1
-    ,	},
-    @leftPad () @lengthOf( charz )
-@tag(
-42  )
-o { i32 msg_type @lengthOf(// `tick` ""quote"" 'q'
-A )
-`` ,
-zchar[
-1 ] charz
-//	t
-//x
-,i8 //x
-packetx `tab	here` ,
-repeat crc rootA , }
-, //	t
-repeat uint8x
-asx
-,
-repeat char[] Foo
-, repeat zchar[ 0123456789
-] u128,
-    match uint8x as _x{ ""packet"" :f32a ,
-    255 :roots ,	[  """ ++ [28040; 24687]%N ++ runes_of_ascii """
-    ,0123456789 ,""CRC32""
-    , 0 , 1 , 255 ]
-:
-    // @lengthOf(
-    Packet,
-""`tick`"" // packet A { u8 x, }
-:
-    metadata ,""x y""
-:rootA}, _x @lengthOf(	crc
-    ), @lengthOf( Logon ) repeat Packet options1, match trueish as
-    lengthOf { 65535: float , } , @tag(
-65535 ) lengthOf @lengthOf(// `tick` ""quote"" 'q'
-a1
-) `tab	here` , }
-")).
-Eval vm_compute in ("<<<M209>>>" ++ check (runes_of_ascii "root packet o { repeat zchar[
-65535
-    ] o, repeat char[ // trailing space 
-0 ] zchar,int64 x `
-`
-//
-//
-,// a // b
-string msg_type // a // b
-,
-    // c
-    @leftPad ('\x00' ) repeat
-calculatedFrom
-    // trailing space 
-    A ,
-string Header@lengthOf( a1)`crlf
-line`  ,repeat crc
-{ f32 Pad,
-    match
-charz
-    /// triple
-    as
-Logon
-    //
-    { [ ""1"" , // c
-""CRC32"" ,	""" ++ [28040; 24687]%N ++ runes_of_ascii """ , 00,
-""1"" , ""{,}"" , """ ++ [28040; 24687]%N ++ runes_of_ascii """	, ""{,}""	]
-// packet A { u8 x, }
-//x
-: uint8x,
-[ 3 , ""CRC32""
-] :
-    // a // b
-    lengthOf , 42 : u128 , }
-    ,  Z9_ ,
-    float64
-u128
-`{ , }` , }
-,
-    u16 calculatedFrom
-,
-zchar[
-3 ]
-calculatedFrom //	t
-,
-@tag( 10) match charz as _x {
-    ""abc""
-    /// triple
-    :
-// `tick` ""quote"" 'q'
-//	t
-zchar
-, ""packet"" : roots ,255 //x
-: options1 , ""1""	: uint8x// packet A { u8 x, }
-,
-    // 50% %s
-    }
-    // trailing space 
-    ,
-}MetaData
-len { uint8x len , } packet options1{ @tag( 10
-    ) i8	roots@lengthOf( lengthOf  )	,
-char[
-1 ]u128 `" ++ [28040; 24687; 31867; 22411]%N ++ runes_of_ascii "` // @lengthOf(
-, a1 tag
-    `say ""hi""` ,
-    string
-    asx
-`// not a comment` ,
-    } packet calculatedFrom{ int64
-    a1//x
-,
-// a // b
-//x
-}")).
-Eval vm_compute in ("<<<M1473>>>" ++ check (runes_of_ascii "options	{
-LittleEndian=true ;
-StringPrefixLenType  = u8 ; ArrayPrefixLenType
+Eval vm_compute in ("<<<M1574>>>" ++ check (runes_of_ascii "
+// top
+	packet 
+      // c0
+		Frame	// c1a
+      // c1b
+    	{
+	// c2
+		u8// c3
+HK // c4
+, // c5
+      u8	// c6
+	BK
+, 	 // c8a
+    // c8b
+	u8 
+// c9
+  	TK// c10
+,match// c12
+	  HK
+	    // c13
 
-= u8 
-; FixedStringPadFromLeft =true
-    ;
+	as  Hdr 
+        // c15
 
-FixedStringPadChar
-    =	'0' ;
-	}
-
-packet
-	Logon  {
-repeat	i8  Ref
-
-    ,
-
-    @rightPad (
-
-'0'  )char[
-    8]
-
-msgKind ,repeat
-InOrderid72 { 
-u8 Side2
-,
-
-    uint32
-
-    Qty
-, repeat InPrice27{ repeat 
-char[4
-]  Acct
-	,
-
-    u64
-sym	,
-} ,
-
-zchar[
-    4]
-    clOrdID
-,int16
-
-lastPx
-	,
-    InAcct22 {
-repeat
-
-    char[	3
-
-]
-
-    OrderId,}
-,
-    }
-, int64
-
-Px	, } 
-packet Fill
-
-{ uint16 
-Qty
-
-,
-repeat char[ 1 ]
-Flags
-
-    ,i8 Ref
-
-, } packet	Logout
-{
-@leftPad(
-'0'
-
-    ) char[
-3]
-    x, int8
-    f1  , Logon 
-, uint16 venue
-,
-zchar[  2 ]
-
-    Px
-,
-	} packet 
-Reject	{
-} root packet 
-Leg
-
-    {	Fill  ,u16
-
-msgKind 
-,
-    match
-    msgKind
-as
-Body
-    {[182
-,  83
-
-]
-
-:
-	Fill 
-,
-
-    199
-
-    :
-Reject,
-    137
-:
-	Logout  ,	35:Logon ,}	,
-
-u32
-lastPx@calculatedFrom( 
-""CRC32""
-
-    ),
-}")).
-Eval vm_compute in ("<<<M9>>>" ++ check (runes_of_ascii "packet roots { u16 packetx`say ""hi""` ,  @tag( 00 )string trueish ,
-// 50% %s
-// @lengthOf(
-}	packet falsey {match o
-as zchar {
-[7
-,
-    // a // b
-    """ ++ [233]%N ++ runes_of_ascii "t" ++ [233]%N ++ runes_of_ascii """ ]:leftPad ,
-    ""a	b"" : f32a ,
-[""`tick`""
-, 10
-    /// triple
-    ,
-// @lengthOf(
-// `tick` ""quote"" 'q'
-4294967296, 255 ,
-10
-, ""{,}""
-// a // b
-//
-, """"
-    ]
-    : // a // b
-i64_
-, 00 : len , [ 10,
-    0,0123456789//x
-]
-:float }, repeat // 50% %s
-char[] BodyLength ,
-    @rightPad (
-    '0'
-    ) @calculatedFrom( // trailing space 
-""a	b""
-)match Foo as chars {	""" ++ [28040; 24687]%N ++ runes_of_ascii """ : asx, ""packet""	: _x , },} root /// triple
-packet x
-    { @calculatedFrom( """ ++ [233]%N ++ runes_of_ascii "t" ++ [233]%N ++ runes_of_ascii """
-)// c
-uint16 calculatedFrom , asx rootA `{ , }` , @calculatedFrom(	""" ++ [28040; 24687]%N ++ runes_of_ascii """ )	x A ,@lengthOf( u8x) @calculatedFrom(
-""1"" ) @lengthOf(
-    //x
-    uint8x )
-    zchar[ 65535]lengthOf
-`tab	here`,}")).
-Eval vm_compute in ("<<<M271>>>" ++ check (runes_of_ascii "root packet // packet A { u8 x, }
-i8i8 {
-@rightPad (// 50% %s
-)char[]	i64_ ,
-string f32a @calculatedFrom( ""a\""b"" )
-// @lengthOf(
-// packet A { u8 x, }
-, @tag(
-    255 ) @calculatedFrom( ""a	b"" )
-    @lengthOf( u128	)match
-float as metadata{
-""\" ++ [233]%N ++ runes_of_ascii """
-    : x_y_z	,
-    10:
-// `tick` ""quote"" 'q'
-// `tick` ""quote"" 'q'
-Packet ,""""
-:asx , } ,
-    @lengthOf( asx  )/// triple
-match
-    matchKey
-// trailing space 
-// c
-as
-Foo{ ""// no comment""
-    : trueish 42 :len ,	42: options1 ""x y"" :
-x_y_z ""CRC32""
-// a // b
-// packet A { u8 x, }
-:  zchar 0123456789 :
-pack ,}
-, } MetaData crc { string  repeatCount , //	t
-char[] a1  ,
-// 50% %s
-// `tick` ""quote"" 'q'
-char msg_type , pack rootA ,  u64  Pad,}")).
-Eval vm_compute in ("<<<M1882>>>" ++ check (runes_of_ascii "MetaData Pad {
-    u32 u128 `doc`,
-    char[] len `a\`,
-    Header tag,
-    u8 repeatCount `tab	here`,/// triple
-    Pad int,
-}
-
-packet len {
-    //x
-    /// triple
-    As {
-        pack _x `
-                `,
-        asx {
-            //
-            string calculatedFrom @lengthOf(MetaDataX),
-            stringy u8x,
-            char[255] MetaDataX @calculatedFrom(""""),
-        },
-        calculatedFrom {
-            string_ len,
-        },
-        Header @lengthOf(charz),
-    },
-}
-
-// " ++ [27880; 37322]%N ++ runes_of_ascii "
-// " ++ [128512]%N ++ runes_of_ascii " emoji
-options {
-    // c
-    // a // b
-}
-
-options {
-    packetx = ""`tick`"";/// triple
-    i64_ = ' ';
-}")).
-Eval vm_compute in ("<<<M1594>>>" ++ check (runes_of_ascii "packet rootA {
-    @calculatedFrom(""{,}"")
-    @calculatedFrom(""x y"")
-    char[0] lengthOf,
-    @tag(3)
-    //	t
-    trueish,
-    charz `" ++ [28040; 24687; 31867; 22411]%N ++ runes_of_ascii "`,
-    match u8x as roots {
-        ""x y"" : i64_,
-        ""a\\"" : As,
-        ""CRC32"" : calculatedFrom,
-        ""1"" : msg_type,
-        [""" ++ [233]%N ++ runes_of_ascii "t" ++ [233]%N ++ runes_of_ascii """, 007] : Foo,
-    },
-    u32 lengthOf,
-    @lengthOf(options1)
-    x_y_z Logon `100% of %d`,
-    @tag(42)
-    // packet A { u8 x, }
-    A {
-        f32a `u8 x,`,
-    },//x
-    @rightPad( ' ' )
-    char[65535] f32a `tab	here`,
-    // c
-    /// triple
-}")).
-Eval vm_compute in ("<<<M1137>>>" ++ check (runes_of_ascii "// top
-packet // c0a
-  // c0b
-_x // c1
-{
-    // c2
-match // c3a
-  // c3b
-Foo // c4
-as // c5
-Z9_
-    // c6
-{ ""a	b""
-    // c8
-: // c9
-Pad // c10a
-  // c10b
-, }
-    // c12
-, // c13a
-  // c13b
-repeat // c14
-x // c15
-`// not a comment`
-    // c16
-, @rightPad // c18
-( // c19a
-  // c19b
-' ' )
-    // c21
-@calculatedFrom( // c22
-""a\\"" // c23a
-  // c23b
-)
-    // c24
-metadata // c25
-MetaDataX // c26
-, @tag(
-    // c28
-0 // c29a
-  // c29b
-) Logon
-    // c31
-int `two words`
-    // c33
-, } // c35
-")).
-Eval vm_compute in ("<<<M214>>>" ++ check (runes_of_ascii "
-options {string_ = float64 ; } root packet BodyLength
-    { Header , i16 Foo, lengthOf@calculatedFrom(
-""`tick`""	) //
-`// not a comment`
-    , @lengthOf( charz )// " ++ [128512]%N ++ runes_of_ascii " emoji
-repeat u32 a1 ,
-    calculatedFrom {
-    f64 chars @lengthOf( a1
-) `u8 x,`
-    , }  , repeat
-    i8
-    _x `
-`
-,} options
-{ }
-MetaData	i8i8
-    { // trailing space 
-MetaDataX A
-,	string
-asx,Packet Pad  `say ""hi""` , u128 stringy ,	i64 _x // " ++ [27880; 37322]%N ++ runes_of_ascii "
-,
-} packet x
-{	}")).
-Eval vm_compute in ("<<<M1850>>>" ++ check (runes_of_ascii "packet NewOrder {
-    u32 qty,
-}
-
-packet Cancel {
-    u64 id,
-}
-
-packet Business {
-    u8 Kind,
-    match Kind as Detail {
-        1 : NewOrder,
-        2 : Cancel,
-    },
-}
-
-packet TcpFrame {
-    u8 T,
-    match T as Body {
-        1 : Business,
-    },
-}
-
-packet UdpFrame {
-    u8 U,
-    match U as Body {
-        1 : Business,
-    },
-    Business extra,
-}
-
-root packet Wire {
-    TcpFrame,
-    UdpFrame,
-}")).
-Eval vm_compute in ("<<<M1276>>>" ++ check (runes_of_ascii "// top
-packet // c0
-B // c1a
-  // c1b
-{ u8
-    // c3
-a ,
-    // c5
-} // c6
-root packet P // c9
-{ u8 // c11a
-  // c11b
-K // c12a
-  // c12b
-, // c13a
-  // c13b
-match
-    // c14
-K
-    // c15
-as
-    // c16
-Body // c17
-{
-    // c18
-1 // c19
-: B // c21
-,
+  { // c16a
+      // c16b
+  1	// c17
+	:	// c18a
+    // c18b
+HdrA	// c19a
+// c19b
+      ,
+2  // c21a
+	// c21b
+  :
     // c22
-} , u16 // c25
-L
-    // c26
-@lengthOf( // c27a
+    HdrB ,// c24
+    	}
+    // c25
+
+,// c26a
+
+  // c26b
+	match  // c27a
+
   // c27b
-Body
+BK
     // c28
-)
-    // c29
-, // c30a
-  // c30b
-} ")).
-Eval vm_compute in ("<<<M1434>>>" ++ check (runes_of_ascii "options
-{
-    // " ++ [27880; 37322]%N ++ runes_of_ascii "
-  // " ++ [128512]%N ++ runes_of_ascii " emoji
-    string_
-=
-    false;	falsey
+	  as 
+	// c29
+	Body  { 
+1  // c32a
+    	// c32b
 
-    =
-	char[ 
-4294967296 
+: // c33a
+// c33b
+	BodyA // c34a
+      // c34b
+  	, // c35a
+  // c35b
+      2 
 
-    // 50% %s
-
-	// `tick` ""quote"" 'q'
-    ] ;	} packet zchar{
-match  //	t
-	float as 
-    //x
-    	len
-{
-
-[
-""" ++ [233]%N ++ runes_of_ascii "t" ++ [233]%N ++ runes_of_ascii """ ] : matchKey	,
-3
-	:
-	//	t
-
-// 50% %s
-  u [	4294967296,""1"" ]: 
-zchar
-, }
-,
-	}
-
-    MetaData
-T 	 // packet A { u8 x, }
-
-{	}")).
-Eval vm_compute in ("<<<M1288>>>" ++ check (runes_of_ascii "// top
-options
-    // c0
-{ // c1a
-  // c1b
-LittleEndian // c2
-= // c3a
-  // c3b
-true ; } root // c7
-packet
-    // c8
-P // c9a
-  // c9b
-{
-    // c10
-u16 // c11a
-  // c11b
-a // c12a
-  // c12b
-, // c13
-u32 Sum // c15a
-  // c15b
-@calculatedFrom( // c16a
-  // c16b
-""CRC32""
-    // c17
-) // c18
-, } ")).
-Eval vm_compute in ("<<<M193>>>" ++ check (runes_of_ascii "// " ++ [27880; 37322]%N ++ runes_of_ascii "
-packet	Header {
-    @tag(
-    // @lengthOf(
-    00
-)
-    u32
-charz @lengthOf( f32a
-)`" ++ [233]%N ++ runes_of_ascii "`, int32 Pad`doc`,
-@leftPad
-    (  '\x00'
-    // " ++ [27880; 37322]%N ++ runes_of_ascii "
-    ) BodyLength T `" ++ [233]%N ++ runes_of_ascii "`
-, }
-packet
-    stringy
-{
-    /// triple
-    msg_type
-// " ++ [27880; 37322]%N ++ runes_of_ascii "
-// " ++ [27880; 37322]%N ++ runes_of_ascii "
-,}MetaData f32a
-{ } // " ++ [128512]%N ++ runes_of_ascii " emoji")).
-Eval vm_compute in ("<<<M434>>>" ++ check (runes_of_ascii "packet
-    asx { @calculatedFrom(
-""""  ) @tag( 255 )@calculatedFrom(
-// packet A { u8 x, }
-// trailing space 
-int16 u8x
-,
-@tag(
-    //
-    007 )
-    @tag( 0
-    /// triple
-    ) @tag( 1) u
-    @lengthOf( T ),
-// `tick` ""quote"" 'q'
-//x
-} // " ++ [128512]%N ++ runes_of_ascii " emoji")).
-Eval vm_compute in ("<<<M407>>>" ++ check (runes_of_ascii "packet
-    asx { @calculatedFrom(
-"""" """"  ) @tag( 255 )repeat
-// packet A { u8 x, }
-// trailing space 
-int16 u8x
-,
-@tag(
-    //
-    007 )
-    @tag( 0
-    /// triple
-    ) @tag( 1) u
-    @lengthOf( T ),
-// `tick` ""quote"" 'q'
-//x
-} // " ++ [128512]%N ++ runes_of_ascii " emoji")).
-Eval vm_compute in ("<<<M539>>>" ++ check (runes_of_ascii "packet
-    asx { @calculatedFrom(
-""""  ) @tag( 255 )repeat
-// packet A { u8 x, ?}
-// trailing space 
-int16 u8x
-,
-@tag(
-    //
-    007 )
-    @tag( 0
-    /// triple
-    ) @tag( 1) u
-    @lengthOf( T ),
-// `tick` ""quote"" 'q'
-//x
-} // " ++ [128512]%N ++ runes_of_ascii " emoji")).
-Eval vm_compute in ("<<<M499>>>" ++ check (runes_of_ascii "packet
-    asx { @calculatedFrom(
-""""  ) @tag( 255 )repeat
-// packet A { u8 x, }
-// trailing space 
-int16 u8x
-,
-@tag(
-    //
-    007 )
-    @tag( 0
-    /// triple
-    ) @tag( 1) {
-    @lengthOf( T ),
-// `tick` ""quote"" 'q'
-//x
-} // " ++ [128512]%N ++ runes_of_ascii " emoji")).
-Eval vm_compute in ("<<<M441>>>" ++ check (runes_of_ascii "packet
-    asx { @calculatedFrom(
-""""  ) @tag( 255 )repeat
-// packet A { u8 x, }
-// trailing space 
-int16 
-,
-@tag(
-    //
-    007 )
-    @tag( 0
-    /// triple
-    ) @tag( 1) u
-    @lengthOf( T ),
-// `tick` ""quote"" 'q'
-//x
-} // " ++ [128512]%N ++ runes_of_ascii " emoji")).
-Eval vm_compute in ("<<<M1761>>>" ++ check (runes_of_ascii "root packet int {
-    @tag(0)
-    @tag(007)
-    @tag(255)
-    match i8i8 as _x {
-        ""\" ++ [233]%N ++ runes_of_ascii """ : i64_,
-        42 : asx,
-        0123456789 : Logon,
-        65535 : calculatedFrom,
-        """ ++ [233]%N ++ runes_of_ascii "t" ++ [233]%N ++ runes_of_ascii """ : u,
-    },
-    /// triple
-}")).
-Eval vm_compute in ("<<<M325>>>" ++ check (runes_of_ascii "MetaData lengthOf {chars asx
-,
-T
-// trailing space 
-// @lengthOf(
-Header
-`100% of %d`	,
-int32 x_y_z `two words`
-, zchar[	0123456789 ] Header
-    ``,len x_y_z`
-` , // c
-}// " ++ [27880; 37322]%N ++ runes_of_ascii "
-packet//
-BodyLength
-    { }
-")).
-Eval vm_compute in ("<<<M1630>>>" ++ check (runes_of_ascii "MetaData zchar {
-}
-
-packet i8i8 {
-    @calculatedFrom(""\n"")
-    i8 tag @lengthOf(Packet),
-    lengthOf {
-        char[] leftPad `{ , }`,
-        i32 crc @calculatedFrom(""a\\""),
-    },
-}")).
-Eval vm_compute in ("<<<M639>>>" ++ check (runes_of_ascii "MetaData u
-    { } MetaData o
-{ float uint8x
-`100% of %d` ,repeatCount u8x, string_ leftPad
-, i32
-    `two words` , int64 x `two words` , calculatedFrom
-stringy `a\` ,
-}
-")).
-Eval vm_compute in ("<<<M1711>>>" ++ check (runes_of_ascii "
-
-  MetaData
-u
-{
-
-    }
-	MetaData
-o 
-{float
-
-uint8x  `100% of %d` ,repeatCount 
-u8x ,
-string_ leftPad	,	i32 
-Foo
-, int64
-x
-
-, 
-calculatedFrom
-
-stringy	`a\`
-,}
-")).
-Eval vm_compute in ("<<<M705>>>" ++ check (runes_of_ascii "MetaData u
-    { } MetaData o
-{ float uint8x
-`100% of %d` ,repeatCount u8x, string_ leftPad
-, i32
-    Foo , int64 x `two words` , calculatedFrom
-stringy `a\` ',
-}
-")).
-Eval vm_compute in ("<<<M658>>>" ++ check (runes_of_ascii "MetaData u
-    { } MetaData o
-{ float uint8x
-`100% of %d` ,repeatCount u8x, string_ leftPad
-, i32
-    Foo , int64 x , `two words` calculatedFrom
-stringy `a\` ,
-}
-")).
-Eval vm_compute in ("<<<M631>>>" ++ check (runes_of_ascii "MetaData u
-    { } MetaData o
-{ float uint8x
-`100% of %d` ,repeatCount u8x, string_ leftPad
-, 
-    Foo , int64 x `two words` , calculatedFrom
-stringy `a\` ,
-}
-")).
-Eval vm_compute in ("<<<M1585>>>" ++ check (runes_of_ascii "
-packet
-	A
-
-    {
-
-    u16 len
-	@lengthOf(
-	body
-)
-    `a
-b`
-    , u32  crc 
-@calculatedFrom(
-""CRC32""
-
-    )
-    `a
-b`
-,
-
-    string  body
-
-,
-
-}
-
-")).
-Eval vm_compute in ("<<<M1677>>>" ++ check (runes_of_ascii "packet crc {
-    repeat Foo A,
-    @lengthOf(uint8x)
-    string matchKey @lengthOf(stringy) `a\`,
-    // c
-}
-
-MetaData chars {
-    leftPad crc `" ++ [233]%N ++ runes_of_ascii "`,
-}")).
-Eval vm_compute in ("<<<M1431>>>" ++ check (runes_of_ascii "
-packet	A
-	{
-u16
-
-len	@lengthOf(	body ) `tab
-	x`
-
-, u32  crc @calculatedFrom( ""CRC32""
-    )
-    `tab
-	x`
-	, string
-    body  ,
-
-    }
-")).
-Eval vm_compute in ("<<<M1441>>>" ++ check (runes_of_ascii "options {
-    }
-options{MetaDataX
-=
-// c
-
-	char; 
-} MetaData
-Pad	{
-i8 metadata ,string
-stringy 
-,  int8 As  `{ , }`
-
-    ,	}
-")).
-Eval vm_compute in ("<<<M1820>>>" ++ check (runes_of_ascii "packet B {
-    u8 a,
-}
-
-root packet P {
-    u8 K,
-    u64 L @lengthOf(Body),
-    match K as Body {
-        1 : B,
-    },
-}")).
-Eval vm_compute in ("<<<M1249>>>" ++ check (runes_of_ascii "options { } options { MetaDataX = char ; } MetaData Pad { i8 metadata , string stringy , int8 As `{ , }` , } // c
-")).
-Eval vm_compute in ("<<<M1227>>>" ++ check (runes_of_ascii "options { } options { MetaDataX = char ; } MetaData Pad { // c
-i8 metadata , string stringy , int8 As `{ , }` , }")).
-Eval vm_compute in ("<<<M913>>>" ++ check (runes_of_ascii "packet A {
-  match k as n {
-    [""a"", ""bb"", 007, ""d"", ""e"", 66, ""g"", ""h"", 9, ""j"", ""k"", 12] : B
-    2 : C
-  },
-}")).
-Eval vm_compute in ("<<<M1643>>>" ++ check (runes_of_ascii "
-packet
-    A {
+// c36
+	: 
+// c37
+  BodyB ,	// c39a
+  // c39b
+  }	, 
+	    // c41
 	match
 
+    // c42
+	TK  // c43
+as
+    Trl	// c45a
+// c45b
+	{
+1  // c47
+	:	// c48
+  TrlA 	 // c49
+    , 	 // c50
+
+}	,
+// c52
+    	}
+	    // c53
+packet HdrA  // c55
+  { 	 // c56
+	  u8  // c57
+a	// c58a
+    // c58b
+, // c59
+	  }	// c60a
+    	// c60b
+    packet
+
+    HdrB	// c62
+
+{
+    // c63
+		u16  b 
+      // c65
+
+,
+	}packet
+// c68
+      BodyA // c69
+	{	// c70
+	u32
+// c71
+    c
+// c72
+	,	// c73
+		}
+
+// c74
+  packet// c75
+	BodyB 	 // c76
+  {	u64
+d 
+,	// c80a
+	// c80b
+    } 
+      // c81
+	packet	// c82
+	TrlA 
+        // c83
+
+	{ // c84a
+// c84b
+
+u8 	 // c85
+	e 
+    // c86
+,  // c87a
+	// c87b
+	}
+
+    root
+    // c89
+    packet 
+
+// c90
+	Msg // c91
+	  { 	 // c92
+
+	Frame // c93a
+      // c93b
+
+,	// c94a
+  // c94b
+
+u8	// c95a
+		// c95b
+	x  
+      // c96
+	  , // c97
+	} 
+      // c98")).
+Eval vm_compute in ("<<<M1502>>>" ++ check (runes_of_ascii "// @lengthOf(
+MetaData BodyLength {
+    u8x u128 `a\`,
+}
+
+packet stringy {
+}
+
+packet a1 {
+    i8 f32a `
+    `,
+    repeat i64 len,
+    @calculatedFrom(""\" ++ [233]%N ++ runes_of_ascii """)
+    string leftPad `line1
+    line2`,
+    match a1 as float {
+        [007, 3] : repeatCount,
+        3 : MetaDataX,
+        ""CRC32"" : u128,
+        [""a\""b"", ""// no comment""] : roots,
+        ""\" ++ [233]%N ++ runes_of_ascii """ : A,
+    },
+    zchar[42] Pad,/// triple
+    @calculatedFrom(""" ++ [233]%N ++ runes_of_ascii "t" ++ [233]%N ++ runes_of_ascii """)
+    // `tick` ""quote"" 'q'
+    match chars as string_ {
+        3 : options1,
+    },
+    uint32 packetx ``,
+    @tag(42)
+    @tag(1)
+    /// triple
+    @calculatedFrom(""" ++ [128512]%N ++ runes_of_ascii """)
+    _x `// not a comment`,
+}
+
+root packet repeatCount {
+    @leftPad()
+    char[0] x_y_z @calculatedFrom(""1""),
+    @rightPad()
+    char[] int,
+    f64 asx,
+    repeat Pad,
+    match i64_ as roots {
+        [""1"", ""packet""] : a1,
+        ""`tick`"" : trueish,
+        [
+            3, ""\n"", ""`tick`"", ""it's"", 10,
+            ""a\""b"", ""CRC32""
+        ] : As,
+        [10, 10] : options1,
+        ""CRC32"" : a1,
+        65535 : u,
+        // c
+    },
+    @calculatedFrom(""x y"")
+    @tag(255)
+    @tag(1)
+    // c
+    zchar[1] crc `
+    `,
+    repeat u16 tag `crlf
+    line`,
+    @leftPad(' ')
+    roots @calculatedFrom(""""),
+}")).
+Eval vm_compute in ("<<<M347>>>" ++ check (runes_of_ascii "
+options
+{} MetaData f32a
+{
+// packet A { u8 x, }
+// 50% %s
+uint32 u128//
+`" ++ [28040; 24687; 31867; 22411]%N ++ runes_of_ascii "` ,
+// " ++ [27880; 37322]%N ++ runes_of_ascii "
+// a // b
+zchar[ 0 ]
+    //	t
+    o
+    , char[
+    0 ]float,
+    msg_type msg_type , } packet // a // b
+x_y_z { // a // b
+repeat T
+    { match
+    msg_type as
+packetx {// a // b
+""packet"" :
+falsey 42:	a1,} , int o , char[// c
+42	]i64_ `100% of %d`, repeatCount	@calculatedFrom( ""it's"" // a // b
+),
+// trailing space 
+// " ++ [27880; 37322]%N ++ runes_of_ascii "
+}
+,  @tag( //
+0 ) // " ++ [27880; 37322]%N ++ runes_of_ascii "
+falsey @lengthOf(BodyLength
+)
+//	t
+// c
+, @leftPad
+    // packet A { u8 x, }
+    () @calculatedFrom( ""1"" ) @lengthOf( // " ++ [128512]%N ++ runes_of_ascii " emoji
+int )
+    match trueish as body{ [ 007 ,
+7 //
+, ""abc"",
+""x y""
+, 00
+    ,
+    ""// no comment""
+    ,255 ,
+1
+    ]
+: body,} , @lengthOf( Pad
+    ) metadata	@calculatedFrom(	""it's""
+) , @leftPad ( )
+//
+/// triple
+@calculatedFrom(
+""" ++ [233]%N ++ runes_of_ascii "t" ++ [233]%N ++ runes_of_ascii """ // 50% %s
+)char // @lengthOf(
+falsey	`{ , }` , char[ 007 ]
+metadata @lengthOf(chars ) , @rightPad ( '0'  ) u8 roots @calculatedFrom( ""packet"" )
+    // @lengthOf(
+    ,
+//x
+//x
+}")).
+Eval vm_compute in ("<<<M1349>>>" ++ check (runes_of_ascii "options {
+    LittleEndian = false;
+    FixedStringPadChar = ' ';
+}
+packet Fill {
+    InFlags6 {
+        repeat u64 count,
+    },
+    char[8] price,
+    repeat char[2] lastPx,
+    char[] count,
+}
+packet Quote {
+    char[] Qty,
+    int32 sym,
+    zchar[9] Flags,
+    int8 tag7,
+    char[7] count,
+}
+packet Cancel {
+    string Acct,
+    @rightPad('\x00') char[2] Note,
+    zchar[5] Side2,
+}
+packet Trade {
+    repeat Quote,
+    Fill,
+    repeat i64 Side2,
+    uint16 Tail,
+    zchar[7] OrderId,
+}
+root packet Party {
+    repeat InLastpx79 {
+        char[12] Px,
+        int8 Tail,
+    },
+    f32 count,
+    repeat u8 Note,
+    Trade,
+    f64 venue,
+    @rightPad('\x00') char[11] tag7,
+    u16 Px,
+    u32 Side2 @lengthOf(Body),
+    match Px as Body {
+        [48, 188] : Fill,
+        190 : Trade,
+        160 : Quote,
+        85 : Cancel,
+    },
+}
+")).
+Eval vm_compute in ("<<<M1326>>>" ++ check (runes_of_ascii "packet MDSnapshotZZ // c1a
+  // c1b
+{ // c2
+u8
+    // c3
+a , // c5a
+  // c5b
+} // c6a
+  // c6b
+packet OrderACK
+    // c8
+{ // c9a
+  // c9b
+u16 // c10a
+  // c10b
+b
+    // c11
+, // c12a
+  // c12b
+} // c13a
+  // c13b
+packet HTTPServerInfo // c15
+{ string
+    // c17
+s // c18a
+  // c18b
+,
+    // c19
+} root packet // c22
+FIXMsg // c23
+{ // c24a
+  // c24b
+u8 // c25
+KType
+    // c26
+, // c27
+MDSnapshotZZ // c28
+, // c29a
+  // c29b
+repeat // c30a
+  // c30b
+OrderACK // c31a
+  // c31b
+, // c32
+match // c33a
+  // c33b
+KType // c34a
+  // c34b
+as Body // c36
+{ // c37a
+  // c37b
+1
+    // c38
+: // c39
+HTTPServerInfo
+    // c40
+,
+    // c41
+2
+    // c42
+: // c43
+OrderACK
+    // c44
+, }
+    // c46
+, // c47a
+  // c47b
+} // c48
+")).
+Eval vm_compute in ("<<<M19>>>" ++ check (runes_of_ascii "options {i64_ = ' ' ;As //	t
+= ""x y""
+    _x= f64 } packet asx
+    {
+    string i8i8
+    , } // 50% %s
+packet float
+    {// 50% %s
+repeat char[ 1
+    ] trueish,  body
+@lengthOf( string_ )`two words` ,@calculatedFrom(""CRC32"") i8 u
+@lengthOf( uint8x ) ,
+    // trailing space 
+    @leftPad
+    () repeat
+    uint8x `` , body tag`tab	here`
+    ,
+string
+    chars
+    `tab	here`, @tag(
+0
+) asx , } // `tick` ""quote"" 'q'
+root packet//	t
+u128//	t
+{
+} MetaData// `tick` ""quote"" 'q'
+x_y_z  { int32 u128 , len calculatedFrom	, char[ 0 ]
+    /// triple
+    _x
+`a\` , zchar[ 1
+    ]
+    x
+    , string  MetaDataX `{ , }`
+    // trailing space 
+    ,
+}
+")).
+Eval vm_compute in ("<<<M71>>>" ++ check (runes_of_ascii "root
+packet
+    matchKey { } MetaData
+u  {
+    } packet zchar { uint32 Z9_
+@lengthOf(A ) `" ++ [233]%N ++ runes_of_ascii "` , @calculatedFrom( ""packet"" ) @tag( 0123456789 )
+Header @calculatedFrom(
+    ""1""
+) `say ""hi""` , @lengthOf(
+// a // b
+//x
+repeatCount // trailing space 
+)
+u8 //
+stringy
+@lengthOf(
+    x
+) , string	string_ @calculatedFrom(""{,}"" ) ,zchar[ 4294967296] tag , char[]
+    trueish @calculatedFrom( ""`tick`"") `doc`
+,float32 repeatCount @lengthOf(	charz )
+`" ++ [233]%N ++ runes_of_ascii "` , @rightPad( )repeat
+f64 lengthOf `tab	here`
+    , @rightPad ( '0' )
+@calculatedFrom(
+    ""a\""b"" ) roots
+    ,	}
+")).
+Eval vm_compute in ("<<<M1134>>>" ++ check (runes_of_ascii "packet float
+    // c1
+{ // c2
+@rightPad // c3a
+  // c3b
+( // c4a
+  // c4b
+) // c5a
+  // c5b
+rootA // c6
+@lengthOf( // c7a
+  // c7b
+trueish // c8
+)
+    // c9
+,
+    // c10
+stringy // c11a
+  // c11b
+@lengthOf( // c12a
+  // c12b
+matchKey )
+    // c14
+, // c15a
+  // c15b
+char[ 4294967296 ]
+    // c18
+pack @lengthOf(
+    // c20
+uint8x
+    // c21
+) // c22a
+  // c22b
+,
+    // c23
+} // c24
+root // c25
+packet trueish {
+    // c28
+repeat uint64
+    // c30
+u128
+    // c31
+`say ""hi""` // c32
+,
+    // c33
+}
+    // c34
+")).
+Eval vm_compute in ("<<<M1160>>>" ++ check (runes_of_ascii "// top
+MetaData
+    // c0
+x
+    // c1
+{
+    // c2
+f32a
+    // c3
+Pad
+    // c4
+``
+    // c5
+,
+    // c6
+}
+    // c7
+packet
+    // c8
+leftPad
+    // c9
+{
+    // c10
+repeat
+    // c11
+int64
+    // c12
+crc
+    // c13
+,
+    // c14
+BodyLength
+    // c15
+{
+    // c16
+uint8
+    // c17
+pack
+    // c18
+`say ""hi""`
+    // c19
+,
+    // c20
+lengthOf
+    // c21
+@lengthOf(
+    // c22
+asx
+    // c23
+)
+    // c24
+`" ++ [28040; 24687; 31867; 22411]%N ++ runes_of_ascii "`
+    // c25
+,
+    // c26
+}
+    // c27
+,
+    // c28
+}
+    // c29
+")).
+Eval vm_compute in ("<<<M146>>>" ++ check (runes_of_ascii "
+root
+    packet rootA {@tag(
+    3
+    // " ++ [27880; 37322]%N ++ runes_of_ascii "
+    ) T {int64  pack @calculatedFrom(
+    ""a\\"")`tab	here`  ,
+char[
+    10
+    ] float , u // trailing space 
+{
+repeat
+    f32 chars,
+} ,	char[] f32a @lengthOf(zchar
+// `tick` ""quote"" 'q'
+// " ++ [128512]%N ++ runes_of_ascii " emoji
+) , } , @calculatedFrom(
+""CRC32""	)  u32 x_y_z @lengthOf(Header )
+`say ""hi""` ,@tag(65535 ) char
+Logon `line1
+line2`
+//
+// `tick` ""quote"" 'q'
+,  float32
+    zchar
+    `// not a comment`,}
+")).
+Eval vm_compute in ("<<<M63>>>" ++ check (runes_of_ascii "packet	body { @leftPad// " ++ [27880; 37322]%N ++ runes_of_ascii "
+( '0' ) stringy  roots	,
+@rightPad
+('0' )	asx @lengthOf(
+_x ) ,
+    //	t
+    } packet chars {
+@tag(
+255	) i32 msg_type
+    , o	{
+pack @calculatedFrom(
+""abc"" ), match rootA as tag{ [ 0123456789
+    // @lengthOf(
+    , 7 ] : len , } ,
+    u32 BodyLength	@calculatedFrom(
+""packet"" )`say ""hi""` , lengthOf u ,	}
+,@rightPad ( ' ' ) repeat
+    f32a ,
+    } MetaData
+    msg_type	{}")).
+Eval vm_compute in ("<<<M363>>>" ++ check (runes_of_ascii "packet
+i64_ {@calculatedFrom(""a	b"" ) match Logon as packetx	{ 10  :
+rootA ""it's"" : BodyLength,[ """ ++ [28040; 24687]%N ++ runes_of_ascii """ ,3 ]
+    :roots[
+    // packet A { u8 x, }
+    ""\" ++ [233]%N ++ runes_of_ascii """ ]  :
+rootA ,""{,}"" : chars, [  """ ++ [28040; 24687]%N ++ runes_of_ascii """ ] : pack , } ,
+    }
+    MetaData trueish
+{ u64	uint8x //
+`say ""hi""` , string uint8x `{ , }`
+, BodyLength uint8x
+//x
+// " ++ [27880; 37322]%N ++ runes_of_ascii "
+`{ , }` , char[]	pack`u8 x,`, // `tick` ""quote"" 'q'
+}
+")).
+Eval vm_compute in ("<<<M182>>>" ++ check (runes_of_ascii "options{ Logon='\x00';
+    Foo
+= ""// no comment""x
+=""a\""b"" }
+    packet rootA {	@tag( 007
+    ) @calculatedFrom( ""a\\""	) // `tick` ""quote"" 'q'
+u{ match
+o as
+    Foo { 255 : asx , ""a\""b"" : zchar, [  ""a	b""	,	""{,}"" , 10
+] : _x } ,// a // b
+char[42
+    ]
+As
+`a\` , int32 i64_
+    @calculatedFrom( """ ++ [28040; 24687]%N ++ runes_of_ascii """ ) // " ++ [27880; 37322]%N ++ runes_of_ascii "
+, repeat chars
+packetx
+    ,} , }
+")).
+Eval vm_compute in ("<<<M1519>>>" ++ check (runes_of_ascii "MetaData body {
+    Foo Packet `a\`,
+    T float,
+    int64 Logon `// not a comment`,
+    zchar[0] i64_ `" ++ [28040; 24687; 31867; 22411]%N ++ runes_of_ascii "`,// `tick` ""quote"" 'q'
+    char[7] calculatedFrom,
+    int16 Logon,
+}
+
+MetaData i64_ {
+    int leftPad `// not a comment`,
+    trueish Logon,
+    string Header `doc`,// packet A { u8 x, }
+}")).
+Eval vm_compute in ("<<<M1394>>>" ++ check (runes_of_ascii "options {
+    LittleEndian = true;
+}
+packet Sub {
+    u8 a,
+    @calculatedFrom(""CRC16"") uint64 SubSum,
+}
+root packet Frame {
+    u16 MsgType,
+    u16 BodyLen @lengthOf(Body),
+    Sub Body,
+    string note,
+    @calculatedFrom(""CRC16"") uint64 Checksum,
+    u8 tail,
+}
+")).
+Eval vm_compute in ("<<<M1404>>>" ++ check (runes_of_ascii "packet
+    T	{
+	}
+
+MetaData
+	lengthOf	{
+    char[ 4294967296 
+]  a1
+,
+
+    float64
+
+    body `100% of %d`,  asx	Foo ,
+
+u8x
+pack
+    // @lengthOf(
+
+// " ++ [128512]%N ++ runes_of_ascii " emoji
+  , 
+zchar[ 
+    // @lengthOf(
+
+  0123456789
+
+] Z9_
+    ,char  As
+`crlf
+line`, } ")).
+Eval vm_compute in ("<<<M412>>>" ++ check (runes_of_ascii "packet
+    asx { @calculatedFrom(
+""""  ) ) @tag( 255 )repeat
+// packet A { u8 x, }
+// trailing space 
+int16 u8x
+,
+@tag(
+    //
+    007 )
+    @tag( 0
+    /// triple
+    ) @tag( 1) u
+    @lengthOf( T ),
+// `tick` ""quote"" 'q'
+//x
+} // " ++ [128512]%N ++ runes_of_ascii " emoji")).
+Eval vm_compute in ("<<<M398>>>" ++ check (runes_of_ascii "packet
+    asx @calculatedFrom( {
+""""  ) @tag( 255 )repeat
+// packet A { u8 x, }
+// trailing space 
+int16 u8x
+,
+@tag(
+    //
+    007 )
+    @tag( 0
+    /// triple
+    ) @tag( 1) u
+    @lengthOf( T ),
+// `tick` ""quote"" 'q'
+//x
+} // " ++ [128512]%N ++ runes_of_ascii " emoji")).
+Eval vm_compute in ("<<<M545>>>" ++ check (runes_of_ascii "packet
+    asx { @calculatedFrom(
+""""  ) @tag( 255 )repeat
+// packet A { u8 x, }
+// trailing space 
+int16 a" ++ [769]%N ++ runes_of_ascii "b
+,
+@tag(
+    //
+    007 )
+    @tag( 0
+    /// triple
+    ) @tag( 1) u
+    @lengthOf( T ),
+// `tick` ""quote"" 'q'
+//x
+} // " ++ [128512]%N ++ runes_of_ascii " emoji")).
+Eval vm_compute in ("<<<M504>>>" ++ check (runes_of_ascii "packet
+    asx { @calculatedFrom(
+""""  ) @tag( 255 )repeat
+// packet A { u8 x, }
+// trailing space 
+int16 u8x
+,
+@tag(
+    //
+    007 )
+    @tag( 0
+    /// triple
+    ) @tag( 1) u
+    uint8 T ),
+// `tick` ""quote"" 'q'
+//x
+} // " ++ [128512]%N ++ runes_of_ascii " emoji")).
+Eval vm_compute in ("<<<M1258>>>" ++ check (runes_of_ascii "// top
+options // c0
+{ // c1a
+  // c1b
+LittleEndian = // c3
+true ; } // c6a
+  // c6b
+root // c7a
+  // c7b
+packet
+    // c8
+P {
+    // c10
+repeat char
+    // c12
+cs ,
+    // c14
+u8 x // c16a
+  // c16b
+,
+    // c17
+} ")).
+Eval vm_compute in ("<<<M27>>>" ++ check (runes_of_ascii "
+MetaData trueish{ string// 50% %s
+u	,
+// @lengthOf(
+//x
+pack Pad`say ""hi""`
+,// a // b
+int32 tag	, u8 asx , // 50% %s
+i32
+    len
+,int int `100% of %d`,
+} MetaData falsey { }
+// @lengthOf(
+")).
+Eval vm_compute in ("<<<M495>>>" ++ check (runes_of_ascii "packet
+    asx { @calculatedFrom(
+""""  ) @tag( 255 )repeat
+// packet A { u8 x, }
+// trailing space 
+int16 u8x
+,
+@tag(
+    //
+    007 )
+    @tag( 0
+    /// triple
+    ) @tag( 1")).
+Eval vm_compute in ("<<<M664>>>" ++ check (runes_of_ascii "MetaData u
+    { } MetaData o
+{ float uint8x
+`100% of %d` ,repeatCount u8x, string_ leftPad
+, i32
+    Foo , int64 x `two words` packet calculatedFrom
+stringy `a\` ,
+}
+")).
+Eval vm_compute in ("<<<M662>>>" ++ check (runes_of_ascii "MetaData u
+    { } MetaData o
+{ float uint8x
+`100% of %d` ,repeatCount u8x, string_ leftPad
+, i32
+    Foo , int64 x `two words` , , calculatedFrom
+stringy `a\` ,
+}
+")).
+Eval vm_compute in ("<<<M583>>>" ++ check (runes_of_ascii "MetaData u
+    { } MetaData o
+{ uint8x float
+`100% of %d` ,repeatCount u8x, string_ leftPad
+, i32
+    Foo , int64 x `two words` , calculatedFrom
+stringy `a\` ,
+}
+")).
+Eval vm_compute in ("<<<M596>>>" ++ check (runes_of_ascii "MetaData u
+    { } MetaData o
+{ float uint8x
+`100% of %d` repeatCount u8x, string_ leftPad
+, i32
+    Foo , int64 x `two words` , calculatedFrom
+stringy `a\` ,
+}
+")).
+Eval vm_compute in ("<<<M589>>>" ++ check (runes_of_ascii "MetaData u
+    { } MetaData o
+{ float )
+`100% of %d` ,repeatCount u8x, string_ leftPad
+, i32
+    Foo , int64 x `two words` , calculatedFrom
+stringy `a\` ,
+}
+")).
+Eval vm_compute in ("<<<M1701>>>" ++ check (runes_of_ascii "packet A {
+    match k as n {
+        [
+            1, 22, 007, 4, 5,
+            66, 7, 8, 9, 10,
+            11
+        ] : B,
+        2 : C,
+    },
+}")).
+Eval vm_compute in ("<<<M1467>>>" ++ check (runes_of_ascii "  packet
+	A {
+
+    match
 k as
-    n
-{[
-	""a"", ""bb"" 
-,007
-,""d"",	""e""
+	n
+
+    {
+	[	1, 22
+,
+	""c c""  ,4	, 5
+, ""f""  , 7
+    ,	8
+    , ""i"" , 10	,
+11 , 
+""l""]: 
+B 2
+	:
+	C },
+    }
+")).
+Eval vm_compute in ("<<<M1749>>>" ++ check (runes_of_ascii "
+packet A { match
+
+k
+	as
+	n
+{
+[""a""
+	,""bb""
+    ,
+	""c c""
+
+,	""d"",
+	""e""
+
+, ""f""
+    ,""g"",""h""
 
     ,
-66
-	,	""g"" ]: B , 2:
+""i"", ""j""  ]:
+B
+2
+
+    :
+
 C
 
-},  }
-
-")).
-Eval vm_compute in ("<<<M1903>>>" ++ check (runes_of_ascii "root
-	packet SimpleMessage
-
-{
-
-    uint16
-    MsgType `" ++ [28040; 24687; 31867; 22411]%N ++ runes_of_ascii "` ,string
-JsonBody	`Json" ++ [23383; 31526; 20018; 28040; 24687; 20307]%N ++ runes_of_ascii "`
-,
 }
-
-")).
-Eval vm_compute in ("<<<M881>>>" ++ check (runes_of_ascii "packet A {
-  match k as n {
-    [1, ""bb"", 007, ""d"", 5, ""f"", 7, ""h"", 9, ""j""] : B
-    2 : C
-  },
-}")).
-Eval vm_compute in ("<<<M867>>>" ++ check (runes_of_ascii "packet A {
-  match k as n {
-    [1, ""bb"", 007, ""d"", 5, ""f"", 7, ""h"", 9] : B,
-    2 : C
-  },
-}")).
-Eval vm_compute in ("<<<M843>>>" ++ check (runes_of_ascii "packet A {
-  match k as n {
-    [""a"", 22, ""c c"", 4, ""e"", 66, ""g""] : B,
-    2 : C
-  },
-}")).
-Eval vm_compute in ("<<<M1313>>>" ++ check (runes_of_ascii "packet order_item {
-    u8 a,
-}
-root packet new_order {
-    order_item,
-    u8 x,
-}
-")).
-Eval vm_compute in ("<<<M1113>>>" ++ check (runes_of_ascii "packet A { u16 // a
- len // b
- @lengthOf( // c
- body // d
- ) // e
- `d` // f
- , }")).
-Eval vm_compute in ("<<<M825>>>" ++ check (runes_of_ascii "packet A {
-  match k as n {
-    [1, 22, 007, 4, 5, 66] : B
-    2 : C
-  },
-}")).
-Eval vm_compute in ("<<<M1948>>>" ++ check (runes_of_ascii "root packet P {
-    u16 a,
-    u32 Sum @calculatedFrom(""CR\
-    C32""),
-}")).
-Eval vm_compute in ("<<<M793>>>" ++ check (runes_of_ascii "packet A {
-  match k as n {
-    [1, 22, ""c c""] : B,
-    2 : C
-  },
-}")).
-Eval vm_compute in ("<<<M244>>>" ++ check (runes_of_ascii "root // " ++ [27880; 37322]%N ++ runes_of_ascii "
-packet lengthOf
-{
-}
-    // " ++ [128512]%N ++ runes_of_ascii " emoji
-    options
-{}
-")).
-Eval vm_compute in ("<<<M1562>>>" ++ check (runes_of_ascii "MetaData M {
-    u8 x `x
-        `,
-    T t `x
-        `,
-}")).
-Eval vm_compute in ("<<<M1112>>>" ++ check (runes_of_ascii "packet A { repeat // a
- B // b
- b // c
- `d` // e
- , }")).
-Eval vm_compute in ("<<<M243>>>" ++ check (runes_of_ascii "// `tick` ""quote"" 'q'
-options { f32a  = uint16}")).
-Eval vm_compute in ("<<<M1627>>>" ++ check (runes_of_ascii "
+,}")).
+Eval vm_compute in ("<<<M1586>>>" ++ check (runes_of_ascii "
 packet
-	A
+    A {
+    match  k
+as n
 
-{
+    { 
+[
+1 ,  22  , ""c c""  ,
+4,	5
 
-u8	x `d `	,	// c 
-      }
+    , ""f""
+,
+7
+,
 
-")).
-Eval vm_compute in ("<<<M1817>>>" ++ check (runes_of_ascii "
+    8 ] :
+B ,
+2
+: C } ,
+} ")).
+Eval vm_compute in ("<<<M905>>>" ++ check (runes_of_ascii "packet A {
+  match k as n {
+    [""a"", ""bb"", ""c c"", ""d"", ""e"", ""f"", ""g"", ""h"", ""i"", ""j"", ""k"", ""l""] : B
+    2 : C
+  },
+}")).
+Eval vm_compute in ("<<<M1218>>>" ++ check (runes_of_ascii "options { } options { MetaDataX = char
+// c
+; } MetaData Pad { i8 metadata , string stringy , int8 As `{ , }` , }")).
+Eval vm_compute in ("<<<M1621>>>" ++ check (runes_of_ascii "
 
-  // c" ++ [133]%N ++ runes_of_ascii "
-      packet  A	{
+  packet A{
+
+match
+    k
+as 
+n
+{ 
+[	""a"" 
+,
+
+    ""bb"",
+007,	""d""
+,
+
+""e"" , 
+66  ] : B,
+2 :
+
+C
+}
+    ,
 
     }
+")).
+Eval vm_compute in ("<<<M947>>>" ++ check (runes_of_ascii "packet A {
+    u16 len @lengthOf(body) `x
+`,
+    u32 crc @calculatedFrom(""CRC32"") `x
+`,
+    string body,
+}")).
+Eval vm_compute in ("<<<M893>>>" ++ check (runes_of_ascii "packet A {
+  match k as n {
+    [1, ""bb"", 007, ""d"", 5, ""f"", 7, ""h"", 9, ""j"", 11] : B,
+    2 : C
+  },
+}")).
+Eval vm_compute in ("<<<M930>>>" ++ check (runes_of_ascii "packet A {
+    Inner {
+        u8 x `
+`,
+        Deep {
+            u8 y `
+`,
+        },
+    },
+}")).
+Eval vm_compute in ("<<<M1604>>>" ++ check (runes_of_ascii "packet 
+A{	match
+k 
+as
+    n {
+[""a""
+,""bb""
+
+    ,
+007,
+    ""d""
+
+] :B
+	,
+    2:  C	}
+	,  }
 
 ")).
-Eval vm_compute in ("<<<M1719>>>" ++ check (runes_of_ascii "packet A {
-    u8 x,// c
-    u8 y,
+Eval vm_compute in ("<<<M855>>>" ++ check (runes_of_ascii "packet A {
+  match k as n {
+    [1, ""bb"", 007, ""d"", 5, ""f"", 7, ""h""] : B
+    2 : C
+  },
 }")).
-Eval vm_compute in ("<<<M1419>>>" ++ check (runes_of_ascii "packet A {
-    u8 x `d" ++ [8239]%N ++ runes_of_ascii "`,// c" ++ [8239]%N ++ runes_of_ascii "
+Eval vm_compute in ("<<<M859>>>" ++ check (runes_of_ascii "packet A {
+  match k as n {
+    [1, 22, ""c c"", 4, 5, ""f"", 7, 8] : B
+    2 : C
+  },
 }")).
-Eval vm_compute in ("<<<M1077>>>" ++ check (runes_of_ascii "packet A {
- u8 x `d" ++ [6158]%N ++ runes_of_ascii "`, // c" ++ [6158]%N ++ runes_of_ascii "
+Eval vm_compute in ("<<<M1852>>>" ++ check (runes_of_ascii "packet A {
+    match k as n {
+        [1, ""bb"", 007] : B,
+        2 : C,
+    },
 }")).
-Eval vm_compute in ("<<<M969>>>" ++ check (runes_of_ascii "packet A {
-    u8 x `%`,
-}")).
-Eval vm_compute in ("<<<M1150>>>" ++ check (runes_of_ascii "root packet a1 {
-// c
-}")).
-Eval vm_compute in ("<<<M1558>>>" ++ check (runes_of_ascii "
-packet
-A{ 
-}// c x
+Eval vm_compute in ("<<<M1526>>>" ++ check (runes_of_ascii "
+
+  root
+
+packet  P
+{ u16 a,
+	u32
+Sum @calculatedFrom(
+
+""CRC32""
+    ) ,}
 ")).
-Eval vm_compute in ("<<<M1051>>>" ++ check (runes_of_ascii "// c" ++ [11]%N ++ runes_of_ascii "
-packet A {
+Eval vm_compute in ("<<<M958>>>" ++ check (runes_of_ascii "packet A {
+    B b `tab
+	x`,
+    B `tab
+	x`,
+    repeat B bs `tab
+	x`,
 }")).
-Eval vm_compute in ("<<<M1063>>>" ++ check (runes_of_ascii "packet A {
-}// c" ++ [8203]%N)).
-Eval vm_compute in ("<<<M1465>>>" ++ check (runes_of_ascii "packet _x {
+Eval vm_compute in ("<<<M789>>>" ++ check (runes_of_ascii "packet A {
+  match k as n {
+    [1, ""bb"", 007] : B,
+    2 : C
+  },
 }")).
-Eval vm_compute in ("<<<M1044>>>" ++ check (runes_of_ascii "// c" ++ [8287]%N)).
+Eval vm_compute in ("<<<M782>>>" ++ check (runes_of_ascii "packet A {
+  match k as n {
+    [""a"", 22] : B,
+    2 : C
+  },
+}")).
+Eval vm_compute in ("<<<M1679>>>" ++ check (runes_of_ascii "root packet len {
+    @calculatedFrom(""a\""b"")
+    i16 a1,
+}")).
+Eval vm_compute in ("<<<M236>>>" ++ check (runes_of_ascii "  MetaData // `tick` ""quote"" 'q'
+u128{ body float	,}
+")).
+Eval vm_compute in ("<<<M1506>>>" ++ check (runes_of_ascii "root packet A{
+
+    u8
+    x  `%%d%!` 
+, 
+}
+")).
+Eval vm_compute in ("<<<M1085>>>" ++ check (runes_of_ascii "packet A {
+    u8 x,    // c    u8 y,
+}")).
+Eval vm_compute in ("<<<M1193>>>" ++ check (runes_of_ascii "options { A = ""// no comment"" } // c
+")).
+Eval vm_compute in ("<<<M736>>>" ++ check (runes_of_ascii "1WT[xl4v9M!>1/;cBK[4~4^pGS{F8PS~T'm")).
+Eval vm_compute in ("<<<M1082>>>" ++ check (runes_of_ascii "packet A {
+ u8 x `d x`, // c x
+}")).
+Eval vm_compute in ("<<<M1042>>>" ++ check (runes_of_ascii "packet A {
+ u8 x `d" ++ [8239]%N ++ runes_of_ascii "`, // c" ++ [8239]%N ++ runes_of_ascii "
+}")).
+Eval vm_compute in ("<<<M1529>>>" ++ check (runes_of_ascii "root packet a1 {
+    // c
+}")).
+Eval vm_compute in ("<<<M1145>>>" ++ check (runes_of_ascii "root packet // c
+a1 { }")).
+Eval vm_compute in ("<<<M167>>>" ++ check (runes_of_ascii "MetaData u8x{}
+//	t
+")).
+Eval vm_compute in ("<<<M1050>>>" ++ check (runes_of_ascii "packet A {
+}
+// c" ++ [11]%N)).
+Eval vm_compute in ("<<<M1048>>>" ++ check (runes_of_ascii "packet A {
+}// c" ++ [11]%N)).
+Eval vm_compute in ("<<<M1638>>>" ++ check (runes_of_ascii "MetaData u {
+}")).
+Eval vm_compute in ("<<<M1024>>>" ++ check (runes_of_ascii "// c" ++ [8202]%N)).
